@@ -12,7 +12,22 @@ use serde_json::json;
 use std::collections::HashSet;
 use vh_common::{Args, Report, Rng, hex, run_driver};
 
-const LEVEL: LuaLanguageLevel = LuaLanguageLevel::Lua55;
+/// the syntax level is part of the configuration (as `luafmt` does)
+pub fn level_of(cfg: &LuaFormatConfig) -> LuaLanguageLevel {
+    cfg.syntax.level.into()
+}
+
+/// overlay `patch` on `base` (objects recursively, everything else replaced)
+pub fn merge_json(base: &mut serde_json::Value, patch: &serde_json::Value) {
+    match (base, patch) {
+        (serde_json::Value::Object(b), serde_json::Value::Object(p)) => {
+            for (k, v) in p {
+                merge_json(b.entry(k.clone()).or_insert(serde_json::Value::Null), v);
+            }
+        }
+        (b, p) => *b = p.clone(),
+    }
+}
 
 pub fn cfg_str(cfg: &LuaFormatConfig) -> String {
     format!(
@@ -24,6 +39,155 @@ pub fn cfg_str(cfg: &LuaFormatConfig) -> String {
         cfg.comments.line_comment_min_spaces_before,
         cfg.comments.line_comment_min_column
     )
+}
+
+// ---------------------------------------------------------------- configuration space (T-src + serde)
+
+pub struct CfgSpace {
+    /// (section, key, alternative values) for every option of the configuration
+    pub leaves: Vec<(String, String, Vec<serde_json::Value>)>,
+    /// one configuration per (option, non-default value)
+    pub singles: Vec<(String, LuaFormatConfig)>,
+}
+
+const CONFIG_SOURCE: &str = "/repo/crates/emmylua_formatter/src/config/mod.rs";
+
+/// `pub struct`/`pub enum` bodies of the configuration source: struct -> (field -> type), enum -> variants
+fn parse_config_source(src: &str) -> (std::collections::BTreeMap<String, Vec<(String, String)>>, std::collections::BTreeMap<String, Vec<String>>) {
+    let mut structs = std::collections::BTreeMap::new();
+    let mut enums = std::collections::BTreeMap::new();
+    let mut cur: Option<(bool, String)> = None;
+    for line in src.lines() {
+        let l = line.trim();
+        if let Some(rest) = l.strip_prefix("pub struct ") {
+            if let Some(name) = rest.strip_suffix(" {") {
+                cur = Some((true, name.to_string()));
+                structs.insert(name.to_string(), Vec::new());
+            }
+        } else if let Some(rest) = l.strip_prefix("pub enum ") {
+            if let Some(name) = rest.strip_suffix(" {") {
+                cur = Some((false, name.to_string()));
+                enums.insert(name.to_string(), Vec::new());
+            }
+        } else if l == "}" {
+            cur = None;
+        } else if let Some((is_struct, name)) = &cur {
+            if l.starts_with("//") || l.starts_with("#[") || l.is_empty() {
+                continue;
+            }
+            if *is_struct {
+                if let Some(rest) = l.strip_prefix("pub ") {
+                    if let Some((f, t)) = rest.trim_end_matches(',').split_once(':') {
+                        structs.get_mut(name).unwrap().push((f.trim().to_string(), t.trim().to_string()));
+                    }
+                }
+            } else {
+                let v = l.trim_end_matches(',');
+                if v.chars().all(|c| c.is_alphanumeric() || c == '_') && !v.is_empty() {
+                    enums.get_mut(name).unwrap().push(v.to_string());
+                }
+            }
+        }
+    }
+    (structs, enums)
+}
+
+/// The whole option space: the fields come from serialising the default configuration (so a new option
+/// appears by construction), the enum variants from the source text of config/mod.rs; both views are
+/// cross-checked (a field in one and not in the other is reported as a broken tie).
+pub fn config_space(report: &mut Report) -> CfgSpace {
+    let default_json = serde_json::to_value(LuaFormatConfig::default()).expect("config json");
+    let src = std::fs::read_to_string(CONFIG_SOURCE).unwrap_or_default();
+    let (structs, enums) = parse_config_source(&src);
+    let root = structs.get("LuaFormatConfig").cloned().unwrap_or_default();
+    let mut leaves = Vec::new();
+    let mut problems: Vec<String> = Vec::new();
+    let obj = default_json.as_object().cloned().unwrap_or_default();
+    for (section, value) in &obj {
+        let Some((_, section_ty)) = root.iter().find(|(f, _)| f == section) else {
+            problems.push(format!("section {section} not found in the source of LuaFormatConfig"));
+            continue;
+        };
+        let fields = structs.get(section_ty).cloned().unwrap_or_default();
+        let sobj = value.as_object().cloned().unwrap_or_default();
+        for (f, _) in &fields {
+            if !sobj.contains_key(f) {
+                problems.push(format!("{section}.{f} is in the source but not in the serialised configuration"));
+            }
+        }
+        for (key, v) in &sobj {
+            let Some((_, ty)) = fields.iter().find(|(f, _)| f == key) else {
+                problems.push(format!("{section}.{key} is serialised but not found in struct {section_ty}"));
+                continue;
+            };
+            let alts: Vec<serde_json::Value> = match v {
+                serde_json::Value::Bool(b) => vec![json!(!b)],
+                serde_json::Value::Number(n) => {
+                    let d = n.as_u64().unwrap_or(0);
+                    match key.as_str() {
+                        "max_line_width" => vec![json!(40), json!(80), json!(1000)],
+                        "width" => vec![json!(2), json!(8)],
+                        "max_blank_lines" => vec![json!(0), json!(2)],
+                        "line_comment_min_spaces_before" => vec![json!(2), json!(3)],
+                        "line_comment_min_column" => vec![json!(10), json!(30)],
+                        _ => vec![json!(0), json!(d + 1)],
+                    }
+                }
+                serde_json::Value::String(cur) => match enums.get(ty) {
+                    Some(vars) => vars.iter().filter(|x| *x != cur).map(|x| json!(x)).collect(),
+                    None => {
+                        problems.push(format!("{section}.{key}: enum {ty} not found in the source"));
+                        vec![]
+                    }
+                },
+                _ => {
+                    problems.push(format!("{section}.{key}: unsupported value kind {v}"));
+                    vec![]
+                }
+            };
+            leaves.push((section.clone(), key.clone(), alts));
+        }
+    }
+    for (f, _) in &root {
+        if !obj.contains_key(f) {
+            problems.push(format!("section {f} is in the source but not serialised"));
+        }
+    }
+    let mut singles = Vec::new();
+    for (section, key, alts) in &leaves {
+        for a in alts {
+            let mut j = default_json.clone();
+            j[section][key] = a.clone();
+            match serde_json::from_value::<LuaFormatConfig>(j) {
+                Ok(c) => singles.push((format!("{section}.{key}={}", a.to_string().trim_matches('"')), c)),
+                Err(e) => problems.push(format!("{section}.{key}={a} is not accepted: {e}")),
+            }
+        }
+    }
+    report.extra.insert("config_options".into(), json!(leaves.len()));
+    report.extra.insert("config_single_toggles".into(), json!(singles.len()));
+    for p in problems {
+        report.mismatch(json!({"input": {"kind": "config-space"}, "model": "option list extracted from config/mod.rs", "impl": p,
+            "tie": "T-src: configuration options extracted from the source vs the serialised default configuration"}));
+    }
+    CfgSpace { leaves, singles }
+}
+
+/// a random combination of non-default options
+pub fn random_config(space: &CfgSpace, rng: &mut Rng) -> (String, LuaFormatConfig) {
+    let mut j = serde_json::to_value(LuaFormatConfig::default()).expect("config json");
+    let mut name = Vec::new();
+    for (section, key, alts) in &space.leaves {
+        if !alts.is_empty() && rng.chance(1, 4) && !(section == "syntax") {
+            let a = rng.pick(alts).clone();
+            name.push(format!("{section}.{key}={}", a.to_string().trim_matches('"')));
+            j[section][key] = a;
+        }
+    }
+    match serde_json::from_value::<LuaFormatConfig>(j) {
+        Ok(c) => (name.join(","), c),
+        Err(_) => ("default".into(), LuaFormatConfig::default()),
+    }
 }
 
 // ---------------------------------------------------------------- random IRs
@@ -163,7 +327,7 @@ fn tie(args: &Args, report: &mut Report, rng: &mut Rng, inputs: &[(String, Strin
     for (i, (name, text)) in inputs.iter().enumerate() {
         for k in 0..per_input_cfgs {
             let (cname, cfg) = &cfgs[if k == 0 { 0 } else { 1 + (i + k) % (cfgs.len() - 1) }];
-            let src = SourceText { text, level: LEVEL };
+            let src = SourceText { text, level: level_of(cfg) };
             let Some(docs) = verif::format_to_ir(&src, cfg) else { continue };
             count_kinds(&docs, report);
             report.count("tie_real_ir");
@@ -223,30 +387,118 @@ fn tie(args: &Args, report: &mut Report, rng: &mut Rng, inputs: &[(String, Strin
 }
 
 /// predicate names for the known C05 findings (computed from the input only)
-pub fn classify5(text: &str) -> Option<&'static str> {
+pub fn classify5(text: &str, cfg: &LuaFormatConfig) -> Option<&'static str> {
     use emmylua_parser::{LuaParseErrorKind, LuaParser, ParserConfig};
-    let tree = LuaParser::parse(text, ParserConfig::with_level(LEVEL));
+    let tree = LuaParser::parse(text, ParserConfig::with_level(level_of(cfg)));
     if !tree.has_syntax_errors() && tree.get_errors().iter().any(|e| e.kind == LuaParseErrorKind::DocError) {
         return Some("input-has-doc-annotation-syntax-error");
     }
     classify(text)
 }
 
-/// predicate names (computed from the input and the configuration only) for the known C06 findings
+/// how two texts differ: only in whitespace runs that contain a line break in at least one of them
+/// (re-breaking / re-indenting), or in anything else (spacing inside a line, characters)
+fn differs_only_in_line_structure(a: &str, b: &str) -> bool {
+    fn pieces(s: &str) -> Vec<(char, String)> {
+        // every non-blank character with the whitespace that follows it
+        let mut out: Vec<(char, String)> = vec![('\0', String::new())];
+        for c in s.chars() {
+            if c.is_whitespace() {
+                out.last_mut().unwrap().1.push(c);
+            } else {
+                out.push((c, String::new()));
+            }
+        }
+        out
+    }
+    // a trailing separator before `}` comes and goes with the line breaks (trailing_comma = Multiline/Always)
+    fn without_trailing_commas(s: &str) -> String {
+        let cs: Vec<char> = s.chars().collect();
+        let mut out = String::with_capacity(s.len());
+        for (i, c) in cs.iter().enumerate() {
+            if *c == ',' && cs[i + 1..].iter().find(|x| !x.is_whitespace()) == Some(&'}') {
+                continue;
+            }
+            out.push(*c);
+        }
+        out
+    }
+    let (pa, pb) = (pieces(&without_trailing_commas(a)), pieces(&without_trailing_commas(b)));
+    if pa.len() != pb.len() {
+        return false;
+    }
+    pa.iter().zip(pb.iter()).all(|(x, y)| x.0 == y.0 && (x.1 == y.1 || x.1.contains('\n') || y.1.contains('\n')))
+}
+
+/// Predicate names for the known C06 findings. They are functions of the input and the configuration only
+/// (the formatter itself is used as part of the predicate). Every structural predicate is narrowed by the
+/// symptom: it only applies when the two passes differ in line structure alone (line breaks / indentation);
+/// a second pass that changes spacing inside a line or any character is never covered by a finding.
 pub fn classify6(text: &str, cfg: &LuaFormatConfig) -> Option<&'static str> {
     use emmylua_parser::{LuaKind, LuaParser, LuaSyntaxKind, LuaTokenKind, ParserConfig};
-    let tree = LuaParser::parse(text, ParserConfig::with_level(LEVEL));
+    let tree = LuaParser::parse(text, ParserConfig::with_level(level_of(cfg)));
     if tree.has_syntax_errors() {
         return None;
     }
+    let src = SourceText { text, level: level_of(cfg) };
+    let first = reformat_lua_code(&src, cfg);
+    let second = reformat_lua_code(&SourceText { text: &first, level: level_of(cfg) }, cfg);
+    if first == second {
+        return None;
+    }
+    // narrow findings: one or two options interacting with one construct
+    if cfg.comments.line_comment_min_column > 0
+        && text.lines().any(|l| {
+            let t = l.trim_start();
+            !t.starts_with("--") && t.contains("--")
+        })
+    {
+        return Some("comment-min-column+statement-with-trailing-comment");
+    }
+    if cfg.output.single_arg_call_parens == emmylua_formatter::SingleArgCallParens::Always && cfg.spacing.space_before_call_paren {
+        let parenless = tree.get_red_root().descendants().any(|n| {
+            n.kind() == LuaKind::Syntax(LuaSyntaxKind::CallArgList)
+                && n.first_token().is_some_and(|t| LuaTokenKind::from(t.kind()) != LuaTokenKind::TkLeftParen)
+        });
+        if parenless {
+            return Some("call-parens-always+space-before-call-paren+call-without-parentheses");
+        }
+    }
     let root = tree.get_red_root();
+    if cfg.comments.align_line_comments && cfg.comments.align_in_table_fields {
+        // a table constructor with a comment behind one of its fields (comment column computed from flat widths)
+        let table_with_trailing_comment = root.descendants().any(|n| {
+            matches!(n.kind(), LuaKind::Syntax(LuaSyntaxKind::TableArrayExpr | LuaSyntaxKind::TableObjectExpr))
+                && n.children().any(|c| {
+                    c.kind() == LuaKind::Syntax(LuaSyntaxKind::Comment)
+                        && c.prev_sibling_or_token().is_some_and(|p| {
+                            // same line as the previous field: no end-of-line token in between
+                            let mut cur = Some(p);
+                            while let Some(e) = cur {
+                                match e.kind() {
+                                    LuaKind::Token(LuaTokenKind::TkWhitespace) => cur = e.prev_sibling_or_token(),
+                                    LuaKind::Token(LuaTokenKind::TkEndOfLine) => return false,
+                                    _ => return true,
+                                }
+                            }
+                            false
+                        })
+                })
+        });
+        if table_with_trailing_comment {
+            return Some("align-table-comments+table-field-with-trailing-comment");
+        }
+    }
+    if !differs_only_in_line_structure(&first, &second) {
+        return None;
+    }
     let mut multiline_token = false;
     let mut multiline_seq = false;
     for el in root.descendants_with_tokens() {
         match el {
             rowan::NodeOrToken::Token(t) => {
                 let k: LuaTokenKind = t.kind().into();
-                if !matches!(k, LuaTokenKind::TkEndOfLine | LuaTokenKind::TkWhitespace) && t.text().contains('\n') && t.text().trim_end().contains('\n') {
+                if !matches!(k, LuaTokenKind::TkEndOfLine | LuaTokenKind::TkWhitespace) && t.text().trim_end().contains('\n') {
                     multiline_token = true;
                 }
             }
@@ -262,21 +514,24 @@ pub fn classify6(text: &str, cfg: &LuaFormatConfig) -> Option<&'static str> {
         }
     }
     if multiline_token {
-        return Some("input-has-multi-line-token");
+        return Some("relayout-only:input-has-multi-line-token");
     }
     if multiline_seq {
-        return Some("input-has-multi-line-table-call-or-parameter-list");
+        return Some("relayout-only:input-has-multi-line-table-call-or-parameter-list");
+    }
+    {
+        use emmylua_formatter::ExpandStrategy::Always;
+        if cfg.layout.table_expand == Always || cfg.layout.call_args_expand == Always || cfg.layout.func_params_expand == Always {
+            return Some("relayout-only:expand-strategy-always");
+        }
     }
     let mut wide = cfg.clone();
     wide.layout.max_line_width = 1_000_000;
-    let src = SourceText { text, level: LEVEL };
-    let first = reformat_lua_code(&src, cfg);
     if first != reformat_lua_code(&src, &wide) {
-        return Some("line-width-limit-forces-line-breaks");
+        return Some("relayout-only:line-width-limit-forces-line-breaks");
     }
-    // the first pass leaves a line longer than the limit (it is re-broken by the next pass)
     if first.lines().any(|l| l.len() > cfg.layout.max_line_width) {
-        return Some("formatted-output-exceeds-line-width");
+        return Some("relayout-only:formatted-output-exceeds-line-width");
     }
     None
 }
@@ -284,16 +539,16 @@ pub fn classify6(text: &str, cfg: &LuaFormatConfig) -> Option<&'static str> {
 /// the two properties' oracles on one (text, config); returns (C05 failure, C06 failure)
 pub fn check_format(text: &str, cfg: &LuaFormatConfig, report: &mut Report) -> (Option<String>, Option<String>) {
     let (t2, c2) = (text.to_string(), cfg.clone());
-    let out = match vh_common::catch(move || reformat_lua_code(&SourceText { text: &t2, level: LEVEL }, &c2)) {
+    let out = match vh_common::catch(move || reformat_lua_code(&SourceText { text: &t2, level: level_of(&c2) }, &c2)) {
         Ok(o) => o,
         Err(m) => return (Some(format!("reformat_lua_code panicked: {m}")), None),
     };
-    let Some(orig) = tokens::parse(text, LEVEL, cfg) else {
+    let Some(orig) = tokens::parse(text, level_of(cfg), cfg) else {
         report.count("oracle_erroneous_input");
         return (if out != text { Some("input with syntax errors was not returned unchanged".into()) } else { None }, None);
     };
     let mut f5 = None;
-    match tokens::parse(&out, LEVEL, cfg) {
+    match tokens::parse(&out, level_of(cfg), cfg) {
         None => f5 = Some("the formatted output has syntax errors".to_string()),
         Some(after) => {
             let (a, b) = (tokens::texts(&orig), tokens::texts(&after));
@@ -309,7 +564,7 @@ pub fn check_format(text: &str, cfg: &LuaFormatConfig, report: &mut Report) -> (
     if out != text { report.count("oracle_output_differs_from_input"); }
     // C06
     let (o2, c3) = (out.clone(), cfg.clone());
-    let f6 = match vh_common::catch(move || reformat_lua_code(&SourceText { text: &o2, level: LEVEL }, &c3)) {
+    let f6 = match vh_common::catch(move || reformat_lua_code(&SourceText { text: &o2, level: level_of(&c3) }, &c3)) {
         Err(m) => Some(format!("second pass panicked: {m}")),
         Ok(second) => {
             if second == out {
@@ -324,9 +579,30 @@ pub fn check_format(text: &str, cfg: &LuaFormatConfig, report: &mut Report) -> (
     (f5, f6)
 }
 
+/// configuration with the syntax level an input was generated for
+fn with_level(cfg: &LuaFormatConfig, level: Option<&str>) -> LuaFormatConfig {
+    match level {
+        None => cfg.clone(),
+        Some(l) => {
+            let mut j = serde_json::to_value(cfg).expect("config json");
+            j["syntax"]["level"] = json!(l);
+            serde_json::from_value(j).unwrap_or_else(|_| cfg.clone())
+        }
+    }
+}
+
+fn report_failure(report: &mut Report, want6: bool, source: &str, text: &str, cname: &str, cfg: &LuaFormatConfig, what: String) {
+    let class = if want6 { classify6(text, cfg) } else { classify5(text, cfg) };
+    // list at most a few failures per known class so that the report's cap can never hide an unclassified one
+    let listed = class.map(|c| { let k = format!("failures_in_class_{c}"); report.count(&k); report.distribution[&k] }).unwrap_or(0);
+    if listed <= 4 {
+        report.oracle_failure(json!({"input": {"kind": "format", "source": source, "text": text, "config": cname,
+            "cfg": serde_json::to_value(cfg).unwrap_or_default()}, "what": what, "class": class}));
+    }
+}
+
 pub fn run(args: &Args, report: &mut Report) {
     let mut rng = Rng::new(args.seed);
-    let cfgs = configs();
     let want6 = args.prop == "C06";
     if let Some(p) = &args.replay {
         let v: serde_json::Value = serde_json::from_str(&std::fs::read_to_string(p).expect("replay file")).expect("json");
@@ -339,88 +615,137 @@ pub fn run(args: &Args, report: &mut Report) {
             return;
         }
         let text = inp["text"].as_str().unwrap_or("").to_string();
-        let cname = inp["config"].as_str().unwrap_or("default");
-        let cfg = cfgs.iter().find(|c| c.0 == cname).map(|c| c.1.clone()).unwrap_or_default();
+        let cname = inp["config"].as_str().unwrap_or("default").to_string();
+        let cfg: LuaFormatConfig = if inp["cfg"].is_object() {
+            serde_json::from_value(inp["cfg"].clone()).unwrap_or_default()
+        } else {
+            configs().iter().find(|c| c.0 == cname).map(|c| c.1.clone()).unwrap_or_default()
+        };
         let (f5, f6) = check_format(&text, &cfg, report);
         if let Some(what) = if want6 { f6 } else { f5 } {
-            report.oracle_failure(json!({"input": inp, "what": what, "class": if want6 { classify6(&text, &cfg) } else { classify5(&text) }}));
+            report_failure(report, want6, "replay", &text, &cname, &cfg, what);
         }
         return;
     }
-    // inputs
-    let mut inputs: Vec<(String, String)> = corpus().into_iter().enumerate().map(|(i, t)| (format!("corpus-{i}"), t)).collect();
-    let n_gen = if args.thorough() { 6000 } else { 350 };
+    // configurations: the hand-picked combinations, every single-option toggle of the whole option space, random combinations
+    let space = config_space(report);
+    let mut cfgs: Vec<(String, LuaFormatConfig)> = configs().into_iter().map(|(n, c)| (n.to_string(), c)).collect();
+    let n_named = cfgs.len();
+    cfgs.extend(space.singles.iter().cloned());
+    let n_singles_end = cfgs.len();
+    for _ in 0..(if args.thorough() { 60 } else { 12 }) {
+        cfgs.push(random_config(&space, &mut rng));
+    }
+    // inputs: (name, text, syntax level the text needs)
+    let mut inputs: Vec<(String, String, Option<&'static str>)> =
+        corpus().into_iter().enumerate().map(|(i, t)| (format!("corpus-{i}"), t, None)).collect();
+    for (i, t) in [
+        "x = a - -b\ny = 1 .. x\nz = a .. .5\n", "f(\"a\", b)\ng({ 1 }, 2)\nh(\"only\")\n",
+        "while x do\n  break -- b\nend\ngoto done -- g\n::done:: -- l\nreturn 1 -- r\n",
+        "---@class (exact) A some desc\n---@class Bcd other\nlocal t = {}\n",
+        "local s = 'C:\\\\dir\\\\\"'\nlocal t = \"it's\"\nlocal u = 'say \"x\"'\n", "x = 1 -- last",
+        "local a = 1 -- one\nlocal bcd = 22 -- two\nfoo(a, function() x() y() end, function() z() w() end)\n",
+    ].iter().enumerate() {
+        inputs.push((format!("corpus-defects-{i}"), t.to_string(), None));
+    }
+    inputs.push(("corpus-ext-0".into(), "local a = 1\na += 2\nabc ..= \"x\"\nfor i = 1, 2 do\n  continue -- c\nend\n".into(), Some("LuaJITExt")));
+    let n_gen = if args.thorough() { 6000 } else { 420 };
     for i in 0..n_gen {
         let mut g = Gen::new(&mut rng);
         g.docs = i % 3 != 0;
         g.comments = i % 5 != 0;
-        inputs.push((format!("gen-{i}"), g.program(if i % 4 == 0 { 3 } else { 10 })));
+        let (text, level) = match i % 6 {
+            0 | 1 => (g.tricky_program(6), None),
+            2 if i % 12 == 2 => {
+                g.ext = true;
+                g.std53 = false;
+                (g.tricky_program(6), Some("LuaJITExt"))
+            }
+            _ => (g.program(if i % 4 == 0 { 3 } else { 10 }), None),
+        };
+        inputs.push((format!("gen-{i}"), text, level));
     }
     let std = std_files(usize::MAX);
     report.extra.insert("std_files".into(), json!(std.len()));
     for (name, text) in &std {
         for (k, para) in paragraphs(text, if args.thorough() { 6000 } else { 3000 }).into_iter().enumerate() {
-            inputs.push((format!("std/{name}#{k}"), para));
+            inputs.push((format!("std/{name}#{k}"), para, None));
         }
         if args.thorough() || text.len() < 20_000 {
-            inputs.push((format!("std/{name}"), text.clone()));
+            inputs.push((format!("std/{name}"), text.clone(), None));
         }
     }
     report.extra.insert("inputs".into(), json!(inputs.len()));
+    report.extra.insert("configurations".into(), json!(cfgs.len()));
+
+    // which configurations an input is formatted with: default, some hand-picked, a rotating window over the
+    // single-option toggles (so every toggle meets many inputs), random combinations
+    let per_input = |i: usize| -> Vec<usize> {
+        let n_single = n_singles_end - n_named;
+        let n_random = cfgs.len() - n_singles_end;
+        let mut v = vec![0usize];
+        let k = if args.thorough() { 8 } else { 3 };
+        for j in 0..k {
+            v.push(n_named + (i * k + j) % n_single.max(1));
+        }
+        v.push(1 + i % (n_named - 1));
+        if n_random > 0 && (args.thorough() || i % 3 == 0) {
+            v.push(n_singles_end + i % n_random);
+        }
+        v
+    };
 
     // tie: printer model vs real printer (a subset of the inputs in the quick tier)
-    let tie_inputs: Vec<(String, String)> = if args.thorough() { inputs.clone() } else { inputs.iter().step_by(4).cloned().collect() };
+    let tie_inputs: Vec<(String, String)> = inputs
+        .iter()
+        .step_by(if args.thorough() { 1 } else { 4 })
+        .filter(|x| x.2.is_none())
+        .map(|x| (x.0.clone(), x.1.clone()))
+        .collect();
     tie(args, report, &mut rng, &tie_inputs);
 
     // oracle
     let mut seen = HashSet::new();
-    for (i, (name, text)) in inputs.iter().enumerate() {
-        let cfg_ix: Vec<usize> = if args.thorough() { (0..cfgs.len()).collect() } else { vec![0, 1 + i % (cfgs.len() - 1)] };
-        for ci in cfg_ix {
-            let (cname, cfg) = &cfgs[ci];
+    let mut used_cfg = HashSet::new();
+    for (i, (name, text, level)) in inputs.iter().enumerate() {
+        for ci in per_input(i) {
+            let (cname, base) = &cfgs[ci];
+            let cfg = with_level(base, *level);
+            used_cfg.insert(ci);
             report.evaluations += 1;
-            let (f5, f6) = check_format(text, cfg, report);
+            let (f5, f6) = check_format(text, &cfg, report);
             if text.lines().count() >= 2 && seen.insert((i, ci)) {
                 report.distinct_nontrivial += 1;
             }
-            if want6 {
-                if let Some(c) = classify6(text, cfg) { report.count(&format!("class_{c}")); } else { report.count("class_none"); }
-            }
             if let Some(what) = if want6 { f6 } else { f5 } {
-                let class = if want6 { classify6(text, cfg) } else { classify5(text) };
-                // list at most a few failures per known class so that the report's cap can never hide an unclassified one
-                let listed = class.map(|c| { let k = format!("failures_in_class_{c}"); report.count(&k); report.distribution[&k] }).unwrap_or(0);
-                if listed <= 4 {
-                    report.oracle_failure(json!({"input": {"kind": "format", "source": name, "text": text, "config": cname}, "what": what, "class": class}));
-                }
+                report_failure(report, want6, name, text, cname, &cfg, what);
             }
         }
         if i == 12 {
             report.sample(json!({"kind": "oracle input", "source": name, "text": text}));
         }
     }
+    report.extra.insert("configurations_used".into(), json!(used_cfg.len()));
     for text in erroneous() {
         report.evaluations += 1;
         let (f5, _) = check_format(&text, &cfgs[0].1, report);
         if let (Some(what), false) = (f5, want6) {
-            report.oracle_failure(json!({"input": {"kind": "format", "source": "erroneous", "text": text, "config": "default"}, "what": what, "class": null}));
+            report_failure(report, want6, "erroneous", &text, "default", &cfgs[0].1, what);
         }
     }
     // erroneous inputs derived from valid ones: delete one byte
-    for (i, (_, text)) in inputs.iter().enumerate().take(if args.thorough() { 3000 } else { 200 }) {
+    for (i, (_, text, level)) in inputs.iter().enumerate().take(if args.thorough() { 3000 } else { 200 }) {
         if text.is_empty() || !text.is_ascii() { continue; }
         let k = rng.below(text.len());
         let mut t = text.clone();
         t.remove(k);
         report.evaluations += 1;
-        let (f5, f6) = check_format(&t, &cfgs[i % cfgs.len()].1, report);
+        let (cname, base) = &cfgs[i % cfgs.len()];
+        let cfg = with_level(base, *level);
+        let (f5, f6) = check_format(&t, &cfg, report);
         if let Some(what) = if want6 { f6 } else { f5 } {
-            let class = if want6 { classify6(&t, &cfgs[i % cfgs.len()].1) } else { classify5(&t) };
-            let listed = class.map(|c| { let k = format!("failures_in_class_{c}"); report.count(&k); report.distribution[&k] }).unwrap_or(0);
-            if listed <= 4 {
-                report.oracle_failure(json!({"input": {"kind": "format", "source": "mutated", "text": t, "config": cfgs[i % cfgs.len()].0}, "what": what, "class": class}));
-            }
+            report_failure(report, want6, "mutated", &t, cname, &cfg, what);
         }
     }
-    report.rule = "tie: IRs dumped from formatting the inputs (hook format_to_ir) and seeded random IRs over all node kinds x configurations (incl. narrow widths, comment columns), model printer vs real printer byte for byte; non-trivial = IR containing a group, fill or align group, distinct by request. oracle: hand-written corpus + grammar-generated valid Lua (messy layout, comments, doc tags) + the std library annotation files (whole and by paragraphs) + inputs with syntax errors (hand-written and one-byte deletions) x formatter configurations; non-trivial = input with >= 2 lines, distinct by (input, config)".into();
+    report.rule = "tie: IRs dumped from formatting the inputs (hook format_to_ir) and seeded random IRs over all node kinds x configurations (incl. narrow widths, comment columns), model printer vs real printer byte for byte; non-trivial = IR containing a group, fill or align group, distinct by request. oracle: hand-written corpus + grammar-generated valid Lua (messy layout, comments, doc tags with attributes, operator/number adjacency, multi-argument calls with string/table/closure arguments, compound assignments and continue under the LuaJIT extension level, comments behind break/goto/label/return, escapes before quotes, trailing comment on the last line with and without final newline) + the std library annotation files (whole and by paragraphs) + inputs with syntax errors (hand-written and one-byte deletions) x configurations: hand-picked combinations, EVERY single-option toggle of the option space (options enumerated from config/mod.rs and the serialised default config), and random combinations; non-trivial = input with >= 2 lines, distinct by (input, config)".into();
 }
